@@ -443,9 +443,9 @@ def _attachment_dispatch_under(cname, r, names, mimes):
                 lab = f"{mod}.{f}"
             return [(lab, fn)]
 
-        def run(seq):
+        def run(seq, data=b"0123456789"):
             del spies.calls[:]
-            atts = [EmailAttachment(filename=fn, mime_type=mt, data=io.BytesIO(b"0123456789"), is_supported_mime_type=flag) for (fn, mt, flag) in seq]
+            atts = [EmailAttachment(filename=fn, mime_type=mt, data=io.BytesIO(data), is_supported_mime_type=flag) for (fn, mt, flag) in seq]
             c = EmailContent(from_email=EmailAddress(), attachments=atts)
             exc = None
             try:
@@ -454,7 +454,7 @@ def _attachment_dispatch_under(cname, r, names, mimes):
                 exc = e
             want = [x for a_ in seq for x in expected(*a_)]
             if exc is not None or spies.calls != want:
-                return ({"attachments (filename, declared mime_type, is_supported_mime_type)": [list(x) for x in seq],
+                return ({"attachments (filename, declared mime_type, is_supported_mime_type)": [list(x) for x in seq], "attachment data starts with": repr(data[:16]),
                          "mimetypes": cname + (f": guess_extension({seq[0][1]!r}) = {mimetypes.guess_extension(seq[0][1])!r}" if cname == "mime-cross" else "")},
                         {"extractor calls (get_extractor(filename), else registry entry of the MIME type; name passed)": want},
                         {"extractor calls": list(spies.calls), "exception": repr(exc) if exc else None},
@@ -467,6 +467,15 @@ def _attachment_dispatch_under(cname, r, names, mimes):
             bad = run([a_])
             if bad:
                 return bad
+        # what the attachment CONTAINS decides nothing: content signatures of the routed families x names the router cannot route
+        # (and two it can) x declared types (generic, matching, contradicting, none)
+        blind = [fn for fn in ["invoice", "ATT00001", "x.bin", "scan.xyz123", "report."] if _label(fn) is None] + ["notes.txt", "Scan.PDF"]
+        for kind, data in SIGNATURES.items():
+            for fn in blind:
+                for mt in ("application/octet-stream", "application/pdf", "text/plain", "application/zip", ""):
+                    bad = run([(fn, mt, True)], data) or run([(fn, mt, bool(is_supported_mime_type(mt)))], data)
+                    if bad:
+                        return bad
         # state must not leak between attachments: pairs sharing a declared type with differently routed names, both orders
         probe = [("export.csv", "application/vnd.ms-excel", True), ("book.xls", "application/vnd.ms-excel", True), ("noext", "application/vnd.ms-excel", True),
                  ("page.html", "text/plain", True), ("a.txt", "text/plain", True), ("report.docx", "application/zip", True), ("b.zip", "application/zip", True)]
